@@ -1,8 +1,9 @@
 use crate::{
     constants::{
         LmsTreeIdentifier, D_TOPSEED, HSS_COMPRESSED_USED_LEAFS_SIZE, ILEN, MAX_ALLOWED_HSS_LEVELS,
-        MAX_HASH_SIZE, MAX_SEED_LEN, REF_IMPL_MAX_PRIVATE_KEY_SIZE, SEED_CHILD_SEED,
-        SEED_SIGNATURE_RANDOMIZER_SEED, TOPSEED_D, TOPSEED_LEN, TOPSEED_SEED, TOPSEED_WHICH,
+        MAX_HASH_SIZE, MAX_SEED_LEN, REF_IMPL_MAX_ALLOWED_HSS_LEVELS, REF_IMPL_MAX_PRIVATE_KEY_SIZE,
+        SEED_CHILD_SEED, SEED_SIGNATURE_RANDOMIZER_SEED, TOPSEED_D, TOPSEED_LEN, TOPSEED_SEED,
+        TOPSEED_WHICH, TREE_HEIGHTS, WINTERNITZ_PARAMETERS,
     },
     hasher::HashChain,
     hss::{definitions::HssPrivateKey, seed_derive::SeedDerive},
@@ -129,7 +130,8 @@ impl<H: HashChain> ReferenceImplPrivateKey<H> {
         result.compressed_used_leafs_indexes =
             CompressedUsedLeafsIndexes::from_slice(compressed_used_leafs_indexes);
 
-        let compressed_parameter = read_and_advance(data, MAX_ALLOWED_HSS_LEVELS, &mut index);
+        let compressed_parameter =
+            read_and_advance(data, REF_IMPL_MAX_ALLOWED_HSS_LEVELS, &mut index);
         result.compressed_parameter = CompressedParameterSet::from_slice(compressed_parameter)?;
 
         let seed_len = result.seed.len();
@@ -216,18 +218,28 @@ pub fn generate_signature_randomizer<H: HashChain>(
 
 const PARAM_SET_END: u8 = 0xff; // Marker for end of parameter set
 
+// The private key always stores one parameter byte for each of the eight levels of the
+// reference implementation, independent of the number of levels this build supports.
 #[derive(Clone, PartialEq, Eq, Zeroize, ZeroizeOnDrop)]
-pub struct CompressedParameterSet([u8; MAX_ALLOWED_HSS_LEVELS]);
+pub struct CompressedParameterSet([u8; REF_IMPL_MAX_ALLOWED_HSS_LEVELS]);
 
 impl Default for CompressedParameterSet {
     fn default() -> Self {
-        Self([PARAM_SET_END; MAX_ALLOWED_HSS_LEVELS])
+        Self([PARAM_SET_END; REF_IMPL_MAX_ALLOWED_HSS_LEVELS])
     }
+}
+
+// A parameter set is only usable, if this build provides the capacity for it.
+fn is_within_build_limits<H: HashChain>(level: usize, parameter: &HssParameter<H>) -> bool {
+    level < MAX_ALLOWED_HSS_LEVELS
+        && parameter.get_lms_parameter().get_tree_height() as usize <= TREE_HEIGHTS[level]
+        && parameter.get_lmots_parameter().get_winternitz() as usize
+            >= WINTERNITZ_PARAMETERS[level]
 }
 
 impl CompressedParameterSet {
     pub fn from_slice(data: &[u8]) -> Result<Self, ()> {
-        if data.len() != MAX_ALLOWED_HSS_LEVELS {
+        if data.len() != REF_IMPL_MAX_ALLOWED_HSS_LEVELS {
             return Err(());
         }
 
@@ -240,7 +252,15 @@ impl CompressedParameterSet {
     pub fn from<H: HashChain>(parameters: &[HssParameter<H>]) -> Result<Self, ()> {
         let mut result = CompressedParameterSet::default();
 
+        if parameters.len() > MAX_ALLOWED_HSS_LEVELS {
+            return Err(());
+        }
+
         for (i, parameter) in parameters.iter().enumerate() {
+            if !is_within_build_limits(i, parameter) {
+                return Err(());
+            }
+
             let lmots = parameter.get_lmots_parameter();
             let lms = parameter.get_lms_parameter();
 
@@ -258,7 +278,7 @@ impl CompressedParameterSet {
     ) -> Result<ArrayVec<[HssParameter<H>; MAX_ALLOWED_HSS_LEVELS]>, ()> {
         let mut result = ArrayVec::new();
 
-        for level in 0..MAX_ALLOWED_HSS_LEVELS {
+        for level in 0..REF_IMPL_MAX_ALLOWED_HSS_LEVELS {
             let parameter = self.0[level];
 
             if parameter == PARAM_SET_END {
@@ -271,7 +291,18 @@ impl CompressedParameterSet {
             let lms = LmsAlgorithm::from(lms_type as u32);
             let lmots = LmotsAlgorithm::from(lmots_type as u32);
 
-            result.extend_from_slice(&[HssParameter::new(lmots, lms)]);
+            if lms.construct_parameter::<H>().is_none()
+                || lmots.construct_parameter::<H>().is_none()
+            {
+                return Err(());
+            }
+
+            let parameter = HssParameter::new(lmots, lms);
+            if !is_within_build_limits(level, &parameter) {
+                return Err(());
+            }
+
+            result.extend_from_slice(&[parameter]);
         }
 
         if result.is_empty() {
